@@ -552,6 +552,7 @@ func init() {
 			{Name: "plain", Count: countFn(12000, 1200000), Run: func(c *core.Ctx, i int) core.Result { return c18History(c, i, false) }},
 			{Name: "tight", Count: countFn(12000, 1200000), Run: func(c *core.Ctx, i int) core.Result { return c18History(c, i, true) }},
 			{Name: "lang", Count: countFn(2400, 240000), Run: c18Lang},
+			{Name: "params", Count: countFn(1200, 60000), Run: func(ctx *core.Ctx, idx int) core.Result { return dupParamCase("C18", ctx, idx) }},
 			{Name: "deeploops", Count: countFn(48, 1200), Run: func(ctx *core.Ctx, idx int) core.Result { return depthCase("C18", ctx, idx) }},
 		},
 		Floors: []core.Floor{{Key: "history_ops", Quick: 2000000, Thor: 200000000}, {Key: "grow_events", Quick: 20000, Thor: 2000000}, {Key: "op_clone_reuse", Quick: 5000, Thor: 500000}, {Key: "op_alias", Quick: 50000, Thor: 5000000}, {Key: "language_level_statements", Quick: 10000, Thor: 1000000}, {Key: "tag:lang:", Quick: 3, Thor: 3}, {Key: "nontrivial", Quick: 15000, Thor: 1500000}},
